@@ -60,8 +60,9 @@ def confirm(src, prop, name):
         ran.append({"cmd": cmd, "tree": "patched + demo", "exit": rc1, "tail": out1[-600:]})
         demo_fails = rc1 != 0 and ("FAILED" in out1 or "panicked" in out1)
         # existing suite on the patched tree without the demo
-        sh("git checkout -- %s" % f, cwd=wt) if not f.startswith("tests/") else os.remove(os.path.join(wt, f))
-        sh("git apply %s" % os.path.join(src, "patch.diff"), cwd=wt)  # re-apply in case demo file == patched file
+        sh("git checkout -- . && git clean -fdq -- src tests", cwd=wt)
+        rc, out = sh("git apply %s" % os.path.join(src, "patch.diff"), cwd=wt)
+        assert rc == 0, out
         rc2, out2 = sh("cargo test --offline --workspace 2>&1 | grep -E '^test result|FAILED|error(\\[|:)'", cwd=wt, env=env)
         ran.append({"cmd": "cargo test --offline --workspace", "tree": "patched", "tail": out2[-800:]})
         suite_ok = "FAILED" not in out2 and "error" not in out2 and "test result: ok" in out2
